@@ -1,19 +1,411 @@
-// Package c12: STUB — property C12 is not built yet.
+// Package c12: JSON modifier configuration trees (parse, fifo, priority, the five filters,
+// martianhttp's configure handler) against a depth-first reading of the tree.
 package c12
 
-import "verif/harness/internal/core"
+import (
+	"bytes"
+	"encoding/json"
+	"fmt"
+	"net/http"
+	"net/http/httptest"
+	"sort"
+	"strconv"
+	"strings"
+	"sync"
+
+	"github.com/google/martian/v3"
+	_ "github.com/google/martian/v3/cookie"
+	_ "github.com/google/martian/v3/fifo"
+	_ "github.com/google/martian/v3/header"
+	"github.com/google/martian/v3/martianhttp"
+	_ "github.com/google/martian/v3/martianurl"
+	_ "github.com/google/martian/v3/method"
+	"github.com/google/martian/v3/parse"
+	_ "github.com/google/martian/v3/priority"
+	_ "github.com/google/martian/v3/querystring"
+
+	"verif/harness/internal/core"
+)
 
 type P struct{}
 
 func init() { core.Register(P{}) }
 
-func (P) ID() string   { return "C12" }
-func (P) Rule() string { return "stub" }
-func (P) Gen(r *core.Rand, tier string, emit func([]string)) {}
-func (P) NewExec() core.Exec                                   { return ex{} }
-func (P) Nontrivial(ops []string, impl []string) bool         { return false }
+func (P) ID() string { return "C12" }
+func (P) Rule() string {
+	return "case = 2-4 configuration bodies POSTed to the real martianhttp configure handler (and parsed by parse.FromJSON), each followed by 3-6 " +
+		"requests/responses run through the handler's active modifier; a body is a random tree (depth <= 5, width <= 4) over fifo.Group (with and " +
+		"without aggregateErrors), priority.Group (priorities with many ties), url/header/querystring/method/cookie filters (18 conditions, with and " +
+		"without else) and probe leaves registered through parse.Register (request-only/response-only/both/neither, optionally failing), with scope " +
+		"absent/null/[]/[request]/[response]/both/duplicated at every level; about a third of the bodies carry one or two defects (unknown name, " +
+		"unsupported or unknown scope, wrong JSON shape, non-JSON text); messages vary method, scheme, host, path, query, headers and cookies so that " +
+		"each condition is both true and false; distinct by hash of the op list; non-trivial when the case has an accepted tree of depth >= 3 and a " +
+		"message whose trace is not empty"
+}
 
-type ex struct{}
+func (P) Nontrivial(ops []string, impl []string) bool {
+	deep, traced := false, false
+	for i, op := range ops {
+		f := strings.Fields(op)
+		if len(f) > 1 && f[0] == "post" && i < len(impl) && strings.HasPrefix(impl[i], "ok") {
+			if n, ok := parseTree(f[1:]); ok && n.depth() >= 3 {
+				deep = true
+			}
+		}
+		if len(f) > 0 && f[0] == "run" && i < len(impl) && strings.HasPrefix(impl[i], "t=") && !strings.HasPrefix(impl[i], "t=- ") {
+			traced = true
+		}
+	}
+	return deep && traced
+}
 
-func (ex) Do(op string) core.Result { return core.Result{Impl: "bad-op"} }
-func (ex) Close()                   {}
+// ---- the probe leaf, registered through the public API ----
+
+const traceHeader = "X-Trace"
+
+type probeErr struct{ label int }
+
+func (e *probeErr) Error() string { return "probe " + strconv.Itoa(e.label) + " failed" }
+
+type probe struct {
+	label            int
+	failReq, failRes bool
+}
+
+func (p *probe) doReq(req *http.Request) error {
+	req.Header.Add(traceHeader, strconv.Itoa(p.label))
+	if p.failReq {
+		return &probeErr{p.label}
+	}
+	return nil
+}
+func (p *probe) doRes(res *http.Response) error {
+	res.Header.Add(traceHeader, strconv.Itoa(p.label))
+	if p.failRes {
+		return &probeErr{p.label}
+	}
+	return nil
+}
+
+type probeReq struct{ p probe }
+type probeRes struct{ p probe }
+type probeBoth struct{ p probe }
+type probeNone struct{ p probe }
+
+func (x *probeReq) ModifyRequest(req *http.Request) error    { return x.p.doReq(req) }
+func (x *probeRes) ModifyResponse(res *http.Response) error  { return x.p.doRes(res) }
+func (x *probeBoth) ModifyRequest(req *http.Request) error   { return x.p.doReq(req) }
+func (x *probeBoth) ModifyResponse(res *http.Response) error { return x.p.doRes(res) }
+
+type probeJSON struct {
+	Label   int                  `json:"label"`
+	Caps    string               `json:"caps"`
+	FailReq bool                 `json:"failReq"`
+	FailRes bool                 `json:"failRes"`
+	Scope   []parse.ModifierType `json:"scope"`
+}
+
+func probeFromJSON(b []byte) (*parse.Result, error) {
+	msg := &probeJSON{}
+	if err := json.Unmarshal(b, msg); err != nil {
+		return nil, err
+	}
+	p := probe{msg.Label, msg.FailReq, msg.FailRes}
+	var mod interface{}
+	switch msg.Caps {
+	case "q":
+		mod = &probeReq{p}
+	case "s":
+		mod = &probeRes{p}
+	case "z":
+		mod = &probeNone{p}
+	default:
+		mod = &probeBoth{p}
+	}
+	return parse.NewResult(mod, msg.Scope)
+}
+
+var regOnce sync.Once
+
+func register() { regOnce.Do(func() { parse.Register("verif.Probe", probeFromJSON) }) }
+
+// ---- the oracle: an independent depth-first reading of the tree ----
+
+// actsOn: which message kinds the node's scope names (absent scope = every kind the node supports),
+// and whether the scope is one the node supports at all.
+func (n *node) capsOf() (req, res bool) {
+	if n.kind != 'L' {
+		return true, true
+	}
+	return n.caps == 'b' || n.caps == 'q', n.caps == 'b' || n.caps == 's'
+}
+
+func (n *node) actsOn(response bool) bool {
+	creq, cres := n.capsOf()
+	switch n.scope {
+	case "n", "N":
+		if response {
+			return cres
+		}
+		return creq
+	case "e":
+		return false
+	}
+	if response {
+		return strings.ContainsRune(n.scope, 's')
+	}
+	return strings.ContainsRune(n.scope, 'q')
+}
+
+// wellFormed: every name registered, every scope supported, every value of the right shape.
+func (n *node) wellFormed() bool {
+	if n.kind == 'U' || n.kind == 'X' {
+		return false
+	}
+	creq, cres := n.capsOf()
+	if n.scope != "n" && n.scope != "N" && n.scope != "e" {
+		for _, c := range n.scope {
+			if c == 'x' || (c == 'q' && !creq) || (c == 's' && !cres) {
+				return false
+			}
+		}
+	}
+	for _, k := range n.kids {
+		if !k.wellFormed() {
+			return false
+		}
+	}
+	return n.els == nil || n.els.wellFormed()
+}
+
+type outcome struct {
+	trace, errs []int
+	stopped     bool // some group stopped at an error with children left
+}
+
+func interp(n *node, response bool, truth map[int]bool) outcome {
+	var o outcome
+	if n == nil || !n.actsOn(response) {
+		return o
+	}
+	switch n.kind {
+	case 'L':
+		o.trace = []int{n.label}
+		if (response && n.failRes) || (!response && n.failReq) {
+			o.errs = []int{n.label}
+		}
+	case 'F', 'P':
+		order := make([]int, len(n.kids))
+		for i := range order {
+			order[i] = i
+		}
+		if n.kind == 'P' { // descending priority, later-listed first among equals
+			for i, j := 0, len(order)-1; i < j; i, j = i+1, j-1 {
+				order[i], order[j] = order[j], order[i]
+			}
+			sort.SliceStable(order, func(a, b int) bool { return n.prios[order[a]] > n.prios[order[b]] })
+		}
+		for pos, i := range order {
+			c := interp(n.kids[i], response, truth)
+			o.trace = append(o.trace, c.trace...)
+			o.stopped = o.stopped || c.stopped
+			if len(c.errs) > 0 {
+				if n.kind == 'F' && n.agg {
+					o.errs = append(o.errs, c.errs...)
+					continue
+				}
+				o.errs = c.errs
+				if pos < len(order)-1 {
+					o.stopped = true
+				}
+				return o
+			}
+		}
+	case 'C':
+		if truth[n.cond] {
+			core.Count("cond:" + condPool[n.cond].filter + ":true")
+			return interp(n.kids[0], response, truth)
+		}
+		core.Count("cond:" + condPool[n.cond].filter + ":false")
+		return interp(n.els, response, truth)
+	}
+	return o
+}
+
+// ---- executing ops on the real code ----
+
+type ex struct {
+	mod        *martianhttp.Modifier
+	active     *node  // the oracle's view: last body it judged acceptable
+	activeText []byte // indented text of that body
+	rejected   bool   // a rejected body was seen since the last accepted one
+}
+
+func (P) NewExec() core.Exec {
+	register()
+	return &ex{mod: martianhttp.NewModifier()}
+}
+func (e *ex) Close() {}
+
+func fail(sig, format string, a ...interface{}) core.Result {
+	return core.Result{Fail: fmt.Sprintf(format, a...), Sig: sig}
+}
+
+func canonParseErr(err error) string {
+	if _, ok := err.(parse.ErrUnknownModifier); ok {
+		return "unknown-modifier"
+	}
+	if strings.HasPrefix(err.Error(), "parse: invalid scope") {
+		return "invalid-scope"
+	}
+	return "malformed"
+}
+
+func canonErr(err error) (string, []int, bool) {
+	switch x := err.(type) {
+	case nil:
+		return "-", nil, true
+	case *probeErr:
+		return "E" + strconv.Itoa(x.label), []int{x.label}, true
+	case *martian.MultiError:
+		var ls []int
+		for _, e := range x.Errors() {
+			pe, ok := e.(*probeErr)
+			if !ok {
+				return "other", nil, false
+			}
+			ls = append(ls, pe.label)
+		}
+		return "M" + strings.TrimPrefix(intsToken(ls), "-"), ls, true
+	}
+	return "other", nil, false
+}
+
+func sameInts(a, b []int) bool {
+	if len(a) != len(b) {
+		return false
+	}
+	for i := range a {
+		if a[i] != b[i] {
+			return false
+		}
+	}
+	return true
+}
+
+func (e *ex) post(n *node) core.Result {
+	text := []byte(n.json(true))
+	r, perr := parse.FromJSON(text)
+	var impl string
+	if perr != nil {
+		impl = "rej " + canonParseErr(perr)
+	} else {
+		impl = "ok " + b01(r.RequestModifier() != nil) + " " + b01(r.ResponseModifier() != nil)
+	}
+	core.Count("post:" + impl)
+
+	req := httptest.NewRequest("POST", "http://martian.proxy/configure", bytes.NewReader(text))
+	rw := httptest.NewRecorder()
+	e.mod.ServeHTTP(rw, req)
+	if (perr == nil) != (rw.Code == 200) || (perr != nil && rw.Code != 400) {
+		return fail("c12:handler-status", "configure handler answered %d but parse.FromJSON returned %v for %s", rw.Code, perr, text)
+	}
+	want := n.wellFormed()
+	switch {
+	case want && rw.Code != 200:
+		return fail("c12:rejected-valid", "configure handler answered %d (%s) for a well-formed tree %s", rw.Code, strings.TrimSpace(rw.Body.String()), text)
+	case !want && rw.Code == 200:
+		return fail("c12:accepted-invalid", "configure handler accepted a body that names an unknown modifier, an unsupported scope or is malformed: %s", text)
+	}
+	if want {
+		var buf bytes.Buffer
+		json.Indent(&buf, text, "", "  ")
+		e.active, e.activeText, e.rejected = n, buf.Bytes(), false
+	} else {
+		e.rejected = true
+	}
+	// the stored configuration text is that of the last accepted body
+	gw := httptest.NewRecorder()
+	e.mod.ServeHTTP(gw, httptest.NewRequest("GET", "http://martian.proxy/configure", nil))
+	if !bytes.Equal(gw.Body.Bytes(), e.activeText) {
+		return fail("c12:config-text", "GET configure returns %q, last accepted body is %q", gw.Body.String(), e.activeText)
+	}
+	return core.Result{Impl: impl}
+}
+
+func (e *ex) run(kind string, m *msgSpec) core.Result {
+	response := kind == "s"
+	req, res := m.build()
+	var err error
+	var trace []string
+	if response {
+		err = e.mod.ModifyResponse(res)
+		trace = res.Header[traceHeader]
+		if len(req.Header[traceHeader]) > 0 {
+			return fail("c12:wrong-kind", "a response run touched the request (trace %v)", req.Header[traceHeader])
+		}
+	} else {
+		err = e.mod.ModifyRequest(req)
+		trace = req.Header[traceHeader]
+	}
+	var tr []int
+	for _, s := range trace {
+		l, _ := strconv.Atoi(s)
+		tr = append(tr, l)
+	}
+	es, flat, ok := canonErr(err)
+	if !ok {
+		return fail("c12:foreign-error", "modifier returned something other than nil, a leaf error, or one MultiError of leaf errors (nesting deeper than one?): %T %v", err, err)
+	}
+	impl := "t=" + intsToken(tr) + " e=" + es
+	truth := map[int]bool{}
+	for _, c := range m.truths(response) {
+		truth[c] = true
+	}
+	exp := interp(e.active, response, truth)
+	core.Count("run:err-" + es[:1])
+	if len(tr) == 0 {
+		core.Count("run:trace-empty")
+	} else {
+		core.Count("run:trace-nonempty")
+	}
+	if exp.stopped {
+		core.Count("run:first-error-stopped-a-group")
+	}
+	if len(exp.errs) >= 2 {
+		core.Count("run:aggregated>=2")
+	}
+	if e.rejected {
+		core.Count("run:after-rejected-post")
+	}
+	if !sameInts(tr, exp.trace) {
+		sig := "c12:trace-mismatch"
+		if e.rejected {
+			sig = "c12:trace-mismatch-after-reject"
+		}
+		return core.Result{Impl: impl, Fail: fmt.Sprintf("leaves that ran: %v, depth-first reading of the active tree says %v (tree %s)", tr, exp.trace, e.active), Sig: sig}
+	}
+	if !sameInts(flat, exp.errs) {
+		return core.Result{Impl: impl, Fail: fmt.Sprintf("errors reported: %v (%s), depth-first reading says %v (tree %s)", flat, es, exp.errs, e.active), Sig: "c12:error-mismatch"}
+	}
+	return core.Result{Impl: impl}
+}
+
+func (e *ex) Do(op string) core.Result {
+	f := strings.Fields(op)
+	switch {
+	case len(f) >= 2 && f[0] == "post":
+		n, ok := parseTree(f[1:])
+		if !ok {
+			return core.Result{Impl: "bad-op"}
+		}
+		return e.post(n)
+	case len(f) == 4 && f[0] == "run" && (f[1] == "q" || f[1] == "s"):
+		m, ok := parseMsg(f[2])
+		if !ok || intsToken(m.truths(f[1] == "s")) != f[3] {
+			return core.Result{Impl: "bad-op"}
+		}
+		return e.run(f[1], m)
+	}
+	return core.Result{Impl: "bad-op"}
+}
